@@ -600,6 +600,7 @@ def run(ctx: Ctx) -> None:
     _memo.rule_isinstance_on_class(ctx, ['graphiq/circuit/circuit_dag.py', 'graphiq/circuit/circuit_base.py'])
     _memo.rule_zip_truncation(ctx, ['graphiq/circuit/circuit_dag.py', 'graphiq/circuit/circuit_base.py'])
     _memo.rule_search_fallthrough(ctx, ['graphiq/circuit/circuit_dag.py', 'graphiq/circuit/circuit_base.py'])
+    _memo.rule_zip_pairing(ctx, ['graphiq/circuit/circuit_dag.py', 'graphiq/circuit/circuit_base.py'])
     rule_own_dag(ctx)
     rule_nodekeys(ctx)
     rule_own_registers(ctx)
@@ -635,6 +636,7 @@ _REPLACE_TABLE = ("        for operation, update_entry in (\n"
 
 
 KNOCKOUTS = [
+    Knockout("insert-at-registers-sorted-without-their-types", DAG, sub_once("        register, reg_type = zip(\n            *sorted(zip(operation.q_registers, operation.q_registers_type))\n        )\n        for i in range(len(register)):\n            self._add_reg_if_absent(\n                register=register[i],\n                reg_type=reg_type[i],\n            )\n\n        assert len(edges)", "        for register, reg_type in zip(sorted(operation.q_registers), operation.q_registers_type):\n            self._add_reg_if_absent(register=register, reg_type=reg_type)\n\n        assert len(edges)"), "zip.pairing", "parallel sequence"),
     Knockout("node-dict-drops-empty-keys", DAG, sub_once("            except ValueError:\n                pass\n\n    def _edge_dict_append", "            except ValueError:\n                pass\n            if not self.node_dict[key]:\n                del self.node_dict[key]\n\n    def _edge_dict_append"), "index.key-stays", "deletes node_dict keys"),
     Knockout("edge-index-only-for-new-node-pairs", DAG, sub_once("        self._edge_dict_append(reg_type, (in_node, out_node, label))\n\n    def _remove_edge", "        if not self.dag.has_edge(in_node, out_node):\n            self._edge_dict_append(reg_type, (in_node, out_node, label))\n\n    def _remove_edge"), "own.dag", "conditional"),
     Knockout("replace-op-table-driven-old-type-key", DAG, sub_once(_REPLACE_BLOCKS, _REPLACE_TABLE), "sibling.nodekeys", "old"),
